@@ -425,8 +425,11 @@ def is_instance(value: Any, type_: Any) -> bool:
     """
 
     # We do not want Python implicit isinstance(True, int) == True
-    if type_ is int and value is True or value is False:
+    if type_ is int and (value is True or value is False):
         return False
+
+    if is_union(type_):
+        return any(is_instance(value, t) for t in get_args(type_))
 
     try:
         # As described in PEP 484 - section: "The numeric tower"
